@@ -1072,6 +1072,9 @@ impl TwoFloat {
             Self::from(0.0)
         } else if self <= 0.0 {
             Self::NAN
+        } else if self.hi < hexf64!("0x1p-1020") {
+            // exp(-ln x) would overflow in the Newton steps: ln x = ln(2^128 x) - 128 ln 2
+            (self * hexf64!("0x1p128")).ln() - 128.0 * LN_2
         } else {
             let mut x = Self::from(libm::log(self.hi));
             x += self * (-x).exp() - 1.0;
